@@ -10,7 +10,7 @@
 (* target "word"/"ws": GenericWordState.SetWordChars / WhitespaceState,    *)
 (*   observed through tokenization of a probe string: id = "set" | "nil".  *)
 (***************************************************************************)
-EXTENDS CharMap, Json, TLC
+EXTENDS CharMap, Json, TLC, Held
 
 VARIABLES l, target
 Trace == ndJsonDeserialize("trace.ndjson")
@@ -47,7 +47,7 @@ Next ==
   /\ LET e == Trace[l] IN
      /\ Apply(e)
      /\ LET f == LookFails(e.obs.look, regs') IN
-        f = "" \/ PrintT("VERIF-FAIL " \o ToString(l) \o " " \o f)
+        Report(l, f, Trace[l])
 Spec == Init /\ [][Next]_<<l, regs, target>>
 Accepted == TLCGet("stats").diameter - 1 = Len(Trace)
 =============================================================================
